@@ -45,6 +45,28 @@ def sm_state(sim):
     return out
 
 
+# FAIL_REASON codes after which the command must never be applied on any node (C02)
+DEFINITE_FAILURES = {1: "QUEUE_FULL", 2: "MISSING_LEADER", 3: "DISCARDED", 4: "NOT_LEADER", 6: "REQUEST_DENIED"}
+
+
+def _success_result(sim, n, x, res, p, all_pos):
+    """C02: the result handed to a SUCCESS callback is what the method returns when executed at the
+    command's position p of the common sequence.  For the free state machine of sim.Obj (`add` returns the
+    number of commands executed so far) that is the rank of p among the executed positions; it must
+    also be what every node that executed p got."""
+    out = []
+    got = sorted(set(r[p] for r in getattr(sim, "results", {}).values() if p in r))
+    rank = len([q for q in all_pos if q <= p])
+    if got and (len(got) > 1 or got[0] != rank):
+        out.append({"signature": "callback:execution-result-differs-between-nodes",
+                    "what": "cmd %r at position %d returned %s on the nodes that executed it (rank of the position: %d)" % (x, p, got, rank)})
+    if res != rank:
+        out.append({"signature": "callback:success-result-not-position-result",
+                    "what": "cmd %r reported SUCCESS with result %r at node %s; executing it at its position %d returns %r"
+                            % (x, res, n, p, rank)})
+    return out
+
+
 def callbacks_contract(sim, final=False):
     """C02: at most one callback per submission; SUCCESS(r) => executed exactly once at a position whose
     result is r; definite failures => never executed anywhere."""
@@ -61,10 +83,12 @@ def callbacks_contract(sim, final=False):
             subs[ev[4]] = (ev[1], ev[2], ev[3])
     # positions at which each command value was executed (commands are unique per submission)
     pos_of = collections.defaultdict(set)
+    all_pos = set()
     for n, ex in sim.execs.items():
         for (pos, cmd) in ex:
             key = cmd[1] if isinstance(cmd, tuple) and cmd and cmd[0] == "boom" else cmd
             pos_of[key].add(pos)
+            all_pos.add(pos)
     for (n, cid, res, err) in sim.callbacks:
         if cid not in subs:
             continue
@@ -74,8 +98,14 @@ def callbacks_contract(sim, final=False):
             if len(ps) != 1:
                 out.append({"signature": "callback:success-not-exactly-one-position",
                             "what": "cmd %r reported SUCCESS at node %s but executed at positions %s" % (x, n, sorted(ps))})
-        elif err in (1, 2, 3, 5, 6):  # QUEUE_FULL, MISSING_LEADER, DISCARDED, NOT_LEADER... see FAIL_REASON
-            pass
+            elif method == "add":
+                out.extend(_success_result(sim, n, x, res, next(iter(ps)), all_pos))
+        elif err in DEFINITE_FAILURES:
+            ps = pos_of.get(x, set())
+            if ps:
+                out.append({"signature": "callback:definite-failure-but-applied:%s" % DEFINITE_FAILURES[err],
+                            "what": "cmd %r was reported %s at node %s but is executed at positions %s"
+                                    % (x, DEFINITE_FAILURES[err], n, sorted(ps))})
     for x, ps in pos_of.items():
         if len(ps) > 1:
             out.append({"signature": "callback:command-applied-at-two-positions",
@@ -166,3 +196,109 @@ class CommitWatch(object):
 
 def all_basic(sim):
     return sm_safety(sim) + sm_state(sim) + leaders_per_term(sim) + callbacks_contract(sim)
+
+
+class StepMonitors(object):
+    """Incremental form of sm_safety + sm_state + leaders_per_term + callbacks_contract for callers that
+    evaluate after EVERY simulator event (same statements, same signatures; only what changed since the
+    previous step is looked at, so a trace costs O(events) instead of O(events^2))."""
+
+    def __init__(self, sim):
+        self.sim = sim
+        self.n_exec = collections.Counter()      # node -> processed length of sim.execs[node]
+        self.prev_pos = {}
+        self.at = {}                             # position -> (node, cmd) first seen
+        self.all_pos = set()
+        self.pos_of = collections.defaultdict(set)
+        self.n_cb = 0
+        self.n_trace = 0
+        self.n_state = 0
+        self.subs = {}
+        self.fired = collections.Counter()
+        self.success = collections.defaultdict(list)    # cmd -> [(node, result, method)]
+        self.failed = {}                                 # cmd -> (node, reason)
+        self.leaders = collections.defaultdict(set)
+        self.state_key = {}
+
+    @staticmethod
+    def _key(cmd):
+        return cmd[1] if isinstance(cmd, tuple) and cmd and cmd[0] == "boom" else cmd
+
+    def step(self):
+        sim = self.sim
+        out = []
+        touched = set()
+        # executions --------------------------------------------------------------------------------
+        for n, ex in list(sim.execs.items()):
+            k = self.n_exec[n]
+            for (pos, cmd) in ex[k:]:
+                if pos in self.at and self.at[pos][1] != cmd:
+                    out.append({"signature": "sm-safety:different-command-at-position",
+                                "what": "position %d: node %s executed %r, node %s executed %r"
+                                        % (pos, self.at[pos][0], self.at[pos][1], n, cmd)})
+                self.at.setdefault(pos, (n, cmd))
+                prev = self.prev_pos.get(n)
+                if prev is not None and pos <= prev and sim.generation.get(n, 1) == 1:
+                    out.append({"signature": "sm-safety:position-repeated-or-reordered",
+                                "what": "node %s executed position %d after position %d" % (n, pos, prev)})
+                self.prev_pos[n] = pos
+                key = self._key(cmd)
+                self.pos_of[key].add(pos)
+                self.all_pos.add(pos)
+                touched.add(key)
+                if len(self.pos_of[key]) > 1:
+                    out.append({"signature": "callback:command-applied-at-two-positions",
+                                "what": "cmd %r executed at positions %s" % (key, sorted(self.pos_of[key]))})
+            self.n_exec[n] = len(ex)
+        # object state = fold of the common prefix ------------------------------------------------------
+        for n, o in sim.objs.items():
+            la = o.raftLastApplied
+            key = (la, len(o.log), self.n_exec[n])
+            if self.state_key.get(n) == key:
+                continue
+            self.state_key[n] = key
+            expect = [self.at[p][1] for p in sorted(self.all_pos) if p <= la]
+            have = list(o.log)
+            if have != expect:
+                out.append({"signature": "sm-safety:state-not-fold-of-prefix",
+                            "what": "node %s lastApplied %d state %r expected %r" % (n, la, have[-6:], expect[-6:])})
+        # leaders -------------------------------------------------------------------------------------
+        for (n, term, old, new) in sim.state_changes[self.n_state:]:
+            if new == 2:
+                self.leaders[term].add(n)
+                if len(self.leaders[term]) > 1:
+                    out.append({"signature": "election:two-leaders-in-term",
+                                "what": "term %s leaders %s" % (term, sorted(self.leaders[term]))})
+        self.n_state = len(sim.state_changes)
+        # callbacks -----------------------------------------------------------------------------------
+        for ev in sim.trace[self.n_trace:]:
+            if ev[0] == "submit":
+                self.subs[ev[4]] = (ev[1], ev[2], ev[3])
+        self.n_trace = len(sim.trace)
+        for (n, cid, res, err) in sim.callbacks[self.n_cb:]:
+            self.fired[cid] += 1
+            if self.fired[cid] > 1:
+                out.append({"signature": "callback:fired-twice", "what": "callback %d fired %d times" % (cid, self.fired[cid])})
+            if cid not in self.subs:
+                continue
+            _, x, method = self.subs[cid]
+            if err == 0:
+                self.success[x].append((n, res, method))
+                touched.add(x)
+            elif err in DEFINITE_FAILURES:
+                self.failed[x] = (n, DEFINITE_FAILURES[err])
+                touched.add(x)
+        self.n_cb = len(sim.callbacks)
+        for x in touched:
+            ps = self.pos_of.get(x, set())
+            for (n, res, method) in self.success.get(x, []):
+                if len(ps) != 1:
+                    out.append({"signature": "callback:success-not-exactly-one-position",
+                                "what": "cmd %r reported SUCCESS at node %s but executed at positions %s" % (x, n, sorted(ps))})
+                elif method == "add":
+                    out.extend(_success_result(sim, n, x, res, next(iter(ps)), self.all_pos))
+            if x in self.failed and ps:
+                n, why = self.failed[x]
+                out.append({"signature": "callback:definite-failure-but-applied:%s" % why,
+                            "what": "cmd %r was reported %s at node %s but is executed at positions %s" % (x, why, n, sorted(ps))})
+        return out
